@@ -363,8 +363,14 @@ func (e *Exception) M__getattr__(name string) (Object, error) {
 }
 
 func (e *Exception) M__str__() (Object, error) {
-	msg := e.Args.(Tuple)[0]
-	return msg, nil
+	args, ok := e.Args.(Tuple)
+	if !ok || len(args) == 0 {
+		return String(""), nil
+	}
+	if len(args) == 1 {
+		return Str(args[0])
+	}
+	return Str(args)
 }
 
 func (e *Exception) M__repr__() (Object, error) {
